@@ -21,6 +21,7 @@ import (
 	"fmt"
 	"math"
 	"math/big"
+	"math/bits"
 	"math/rand"
 	"os"
 	"reflect"
@@ -78,6 +79,73 @@ type vc04Val struct {
 	style int
 	pat   []vc04PTok
 	rat   *big.Rat
+	num   *vc04Num
+}
+
+// vc04Num is an exact rational with an allocation-free comparison for the common case
+// (numerator and denominator fit in 63 bits).
+type vc04Num struct {
+	r     *big.Rat
+	n, d  int64
+	small bool
+}
+
+func vc04MkNum(r *big.Rat) *vc04Num {
+	x := &vc04Num{r: r}
+	if r.Num().IsInt64() && r.Denom().IsInt64() && r.Num().Int64() != math.MinInt64 {
+		x.n, x.d, x.small = r.Num().Int64(), r.Denom().Int64(), true
+	}
+	return x
+}
+
+func vc04NumCmp(a, b *vc04Num) int {
+	if !a.small || !b.small {
+		return a.r.Cmp(b.r)
+	}
+	sa, sb := 0, 0
+	switch {
+	case a.n > 0:
+		sa = 1
+	case a.n < 0:
+		sa = -1
+	}
+	switch {
+	case b.n > 0:
+		sb = 1
+	case b.n < 0:
+		sb = -1
+	}
+	if sa != sb {
+		if sa < sb {
+			return -1
+		}
+		return 1
+	}
+	if sa == 0 {
+		return 0
+	}
+	ua, ub := uint64(a.n), uint64(b.n)
+	if sa < 0 {
+		ua, ub = uint64(-a.n), uint64(-b.n)
+	}
+	h1, l1 := bits.Mul64(ua, uint64(b.d))
+	h2, l2 := bits.Mul64(ub, uint64(a.d))
+	c := 0
+	switch {
+	case h1 != h2:
+		if h1 < h2 {
+			c = -1
+		} else {
+			c = 1
+		}
+	case l1 != l2:
+		if l1 < l2 {
+			c = -1
+		} else {
+			c = 1
+		}
+	}
+	return c * sa
 }
 
 const (
@@ -114,7 +182,7 @@ func vc04Int(s string) vc04Val {
 	if !ok {
 		panic("bad int " + s)
 	}
-	return vc04Val{kind: vc04KInt, text: s, rat: r}
+	return vc04Val{kind: vc04KInt, text: s, rat: r, num: vc04MkNum(r)}
 }
 
 func vc04Dec(s string) vc04Val {
@@ -122,7 +190,7 @@ func vc04Dec(s string) vc04Val {
 	if !ok {
 		panic("bad dec " + s)
 	}
-	return vc04Val{kind: vc04KDec, text: s, rat: r}
+	return vc04Val{kind: vc04KDec, text: s, rat: r, num: vc04MkNum(r)}
 }
 
 func vc04Str(s string, style int) vc04Val { return vc04Val{kind: vc04KStr, text: s, style: style} }
@@ -322,7 +390,7 @@ func vc04LeavesOf(n *vc04Node, out []*vc04Node) []*vc04Node {
 
 type vc04Cell struct {
 	num bool
-	n   *big.Rat
+	n   *vc04Num
 	s   string
 }
 
@@ -330,7 +398,7 @@ type vc04Row map[string]vc04Cell
 
 func vc04CmpVal(c vc04Cell, v vc04Val) int {
 	if c.num {
-		return c.n.Cmp(v.rat)
+		return vc04NumCmp(c.n, v.num)
 	}
 	return strings.Compare(c.s, v.text)
 }
@@ -586,6 +654,7 @@ type vc04SQL struct {
 	k       int
 	s       string // column name / string constant / operator
 	n       *big.Rat
+	num     *vc04Num
 	idx     int
 	a, b, c *vc04SQL
 	list    []*vc04SQL
@@ -779,7 +848,8 @@ func (p *vc04Parser) parseUnary() (*vc04SQL, error) {
 		}
 		if e.k == vc04SNum {
 			if t.s == "-" {
-				return &vc04SQL{k: vc04SNum, n: new(big.Rat).Neg(e.n), s: "-" + e.s}, nil
+				neg := new(big.Rat).Neg(e.n)
+				return &vc04SQL{k: vc04SNum, n: neg, num: vc04MkNum(neg), s: "-" + e.s}, nil
 			}
 			return e, nil
 		}
@@ -813,7 +883,7 @@ func (p *vc04Parser) parsePrimary() (*vc04SQL, error) {
 		if !ok {
 			return nil, fmt.Errorf("bad numeric constant %q", t.s)
 		}
-		return &vc04SQL{k: vc04SNum, n: r, s: t.s}, nil
+		return &vc04SQL{k: vc04SNum, n: r, num: vc04MkNum(r), s: t.s}, nil
 	case vc04TParam:
 		return &vc04SQL{k: vc04SParam, idx: t.idx}, nil
 	}
@@ -843,7 +913,7 @@ func vc04SQLConsts(e *vc04SQL, nums *[]*big.Rat, strs *[]string) {
 type vc04Sv struct {
 	t int8 // 0 bool, 1 number, 2 string
 	b bool
-	n *big.Rat
+	n *vc04Num
 	s string
 }
 
@@ -911,7 +981,7 @@ func vc04CompareSv(a, b vc04Sv, op string) (int, error) {
 		return 0, fmt.Errorf("operator does not exist: %s %s %s", vc04TypeName(a), op, vc04TypeName(b))
 	}
 	if a.t == 1 {
-		return a.n.Cmp(b.n), nil
+		return vc04NumCmp(a.n, b.n), nil
 	}
 	return strings.Compare(a.s, b.s), nil
 }
@@ -930,7 +1000,7 @@ func vc04EvalSQL(e *vc04SQL, row vc04Row, params []vc04Sv) (vc04Sv, error) {
 	case vc04SStr:
 		return vc04Sv{t: 2, s: e.s}, nil
 	case vc04SNum:
-		return vc04Sv{t: 1, n: e.n}, nil
+		return vc04Sv{t: 1, n: e.num}, nil
 	case vc04SParam:
 		if e.idx >= len(params) {
 			return vc04Sv{}, fmt.Errorf("there is no parameter $%d", e.idx+1)
@@ -945,7 +1015,7 @@ func vc04EvalSQL(e *vc04SQL, row vc04Row, params []vc04Sv) (vc04Sv, error) {
 			return v, fmt.Errorf("operator does not exist: unary sign on %s", vc04TypeName(v))
 		}
 		if e.k == vc04SNeg {
-			return vc04Sv{t: 1, n: new(big.Rat).Neg(v.n)}, nil
+			return vc04Sv{t: 1, n: vc04MkNum(new(big.Rat).Neg(v.n.r))}, nil
 		}
 		return v, nil
 	case vc04SAnd, vc04SOr:
@@ -1202,16 +1272,16 @@ func vc04Probes(root *vc04Node, sqlNums []*big.Rat, sqlStrs []string) vc04ProbeS
 			}
 			one := big.NewRat(1, 1)
 			half := big.NewRat(1, 2)
-			cells = append(cells, vc04Cell{num: true, n: new(big.Rat).Sub(uniq[0], one)})
+			cells = append(cells, vc04Cell{num: true, n: vc04MkNum(new(big.Rat).Sub(uniq[0], one))})
 			for i, r := range uniq {
-				cells = append(cells, vc04Cell{num: true, n: r})
+				cells = append(cells, vc04Cell{num: true, n: vc04MkNum(r)})
 				if i+1 < len(uniq) {
 					mid := new(big.Rat).Add(r, uniq[i+1])
 					mid.Mul(mid, half)
-					cells = append(cells, vc04Cell{num: true, n: mid})
+					cells = append(cells, vc04Cell{num: true, n: vc04MkNum(mid)})
 				}
 			}
-			cells = append(cells, vc04Cell{num: true, n: new(big.Rat).Add(uniq[len(uniq)-1], one)})
+			cells = append(cells, vc04Cell{num: true, n: vc04MkNum(new(big.Rat).Add(uniq[len(uniq)-1], one))})
 		} else {
 			seen := map[string]bool{}
 			add := func(s string) {
@@ -1272,7 +1342,7 @@ func vc04ShowRow(row vc04Row) string {
 	for _, k := range names {
 		c := row[k]
 		if c.num {
-			parts = append(parts, k+"="+c.n.FloatString(6))
+			parts = append(parts, k+"="+c.n.r.FloatString(6))
 		} else {
 			parts = append(parts, k+"="+strconv.Quote(c.s))
 		}
@@ -1857,7 +1927,8 @@ func vc04LeafFeatures(l *vc04Node) []string {
 		lo, hi := l.vals[0], l.vals[1]
 		oneOpen := (lo.kind == vc04KOpen) != (hi.kind == vc04KOpen)
 		if !l.num {
-			if lo.kind == vc04KStr && lo.text == "*" && hi.kind == vc04KStr && hi.text == "*" {
+			starOrOpen := func(v vc04Val) bool { return v.kind == vc04KOpen || (v.kind == vc04KStr && v.text == "*") }
+			if starOrOpen(lo) && starOrOpen(hi) && (lo.kind == vc04KStr || hi.kind == vc04KStr) {
 				add("quoted-star-bounds-read-as-open")
 			}
 			// string ranges are always rendered as BETWEEN: the brackets are never consulted
@@ -2015,7 +2086,7 @@ func vc04ShowParams(p []any) string {
 func vc04ParamSv(p any) (vc04Sv, error) {
 	switch x := p.(type) {
 	case int:
-		return vc04Sv{t: 1, n: new(big.Rat).SetInt64(int64(x))}, nil
+		return vc04Sv{t: 1, n: vc04MkNum(new(big.Rat).SetInt64(int64(x)))}, nil
 	case float64:
 		if math.IsNaN(x) || math.IsInf(x, 0) {
 			return vc04Sv{}, fmt.Errorf("parameter %v has no numeric value", x)
@@ -2024,7 +2095,7 @@ func vc04ParamSv(p any) (vc04Sv, error) {
 		if !ok {
 			return vc04Sv{}, fmt.Errorf("parameter %v has no numeric value", x)
 		}
-		return vc04Sv{t: 1, n: r}, nil
+		return vc04Sv{t: 1, n: vc04MkNum(r)}, nil
 	case string:
 		return vc04Sv{t: 2, s: x}, nil
 	}
@@ -2068,7 +2139,7 @@ func vc04Substitutes(v vc04Val, thorough bool) []vc04Val {
 	return res
 }
 
-func vc04CheckOne(root *vc04Node, text string, full bool, maxRows int, thorough bool) vc04Outcome {
+func vc04CheckOne(root *vc04Node, text string, full bool, maxRows int, thorough bool, maxSubs int) vc04Outcome {
 	sqlI, errI, panI := vc04CallInline(text)
 	if panI != nil {
 		return vc04Outcome{kind: "panic", msg: fmt.Sprintf("ToPostgres panicked: %v", panI)}
@@ -2119,7 +2190,7 @@ func vc04CheckOne(root *vc04Node, text string, full bool, maxRows int, thorough 
 			switch sv.t {
 			case 1:
 				if sv.n != nil {
-					nums = append(nums, sv.n)
+					nums = append(nums, sv.n.r)
 				}
 			case 2:
 				strs = append(strs, sv.s)
@@ -2159,7 +2230,11 @@ func vc04CheckOne(root *vc04Node, text string, full bool, maxRows int, thorough 
 			if v.kind == vc04KOpen {
 				continue
 			}
-			for _, sub := range vc04Substitutes(v, thorough) {
+			subs := vc04Substitutes(v, thorough)
+			if len(subs) > maxSubs {
+				subs = subs[:maxSubs]
+			}
+			for _, sub := range subs {
 				c := vc04CloneTree(root)
 				vc04LeavesOf(c, nil)[li].vals[vi] = sub
 				text2 := vc04Print(c, full)
@@ -2261,18 +2336,20 @@ func TestVerifStandin_C04(t *testing.T) {
 	}
 
 	type item struct {
-		q    vc04Query
-		full bool
+		q       vc04Query
+		full    bool
+		maxSubs int
 	}
 	var items []item
 	seen := map[string]bool{}
+	maxSubs := 8
 	add := func(n *vc04Node, full bool) {
 		text := vc04Print(n, full)
 		if seen[text] {
 			return
 		}
 		seen[text] = true
-		items = append(items, item{vc04Query{root: n, text: text}, full})
+		items = append(items, item{vc04Query{root: n, text: text}, full, maxSubs})
 	}
 	leaves := vc04AllLeaves(thorough)
 	reBodies := []string{"b", "ab+c", "a b", "b*", "", "é", ".", ".*", "bc", "[bc]d"}
@@ -2280,14 +2357,33 @@ func TestVerifStandin_C04(t *testing.T) {
 		leaves = append(leaves, vc04Leaf(vc04OpRegex, "s", false, vc04Re(b)))
 	}
 	for _, l := range leaves {
+		plain := true
+		for _, v := range l.vals {
+			for _, tk := range v.pat {
+				// the fixed translation "* to %, ? to _" says nothing about escaped literal
+				// specials inside a pattern: those patterns are left to C03
+				if tk.k == 0 && !(vc04WordRune(tk.r) || tk.r == '.' || tk.r == '-') {
+					plain = false
+				}
+			}
+		}
+		if !plain {
+			continue
+		}
 		for _, c := range vc04Contexts(l) {
 			add(c, false)
 		}
 	}
 	nLeafPart := len(items)
 	sl := vc04StructLeaves(thorough)
+	if !thorough {
+		sl = []*vc04Node{sl[0], sl[2], sl[4], sl[5], sl[6], sl[7]}
+	}
 	sl = append(sl, vc04Leaf(vc04OpRegex, "t", false, vc04Re("b.d")), vc04Leaf(vc04OpLike, "s", false, vc04Pat("*")))
 	structs := vc04Structures(sl, []*vc04Node{sl[0], sl[2], sl[4]})
+	if !thorough {
+		maxSubs = 2 // every value position of every structure still gets two same-kind substitutions
+	}
 	for _, s := range structs {
 		add(s, false)
 		if thorough {
@@ -2295,6 +2391,7 @@ func TestVerifStandin_C04(t *testing.T) {
 		}
 	}
 	nStructPart := len(items) - nLeafPart
+	maxSubs = 8
 	nRandom := 4000
 	randDepth := 3
 	if thorough {
@@ -2320,7 +2417,7 @@ func TestVerifStandin_C04(t *testing.T) {
 					out = vc04Outcome{kind: "panic", msg: fmt.Sprintf("panic while checking: %v", r)}
 				}
 			}()
-			out = vc04CheckOne(it.q.root, it.q.text, it.full, maxRows, thorough)
+			out = vc04CheckOne(it.q.root, it.q.text, it.full, maxRows, thorough, it.maxSubs)
 		}()
 		atomic.AddInt64(&rowEvals, int64(out.rows))
 		if out.renderable {
@@ -2344,7 +2441,7 @@ func TestVerifStandin_C04(t *testing.T) {
 		"over %d numbers and %d string spellings, each alone and under NOT, -, +, and on both sides of AND / OR; "+
 		"(2) %d texts: every tree of depth <= 2 over %d representative leaves with NOT, +, -, AND, OR and juxtaposed +/- clauses; "+
 		"(3) %d seeded random trees of depth <= %d with random values. "+
-		"For every value position 3-8 substitutions by another value of the same kind (ints incl. MaxInt64, decimals, strings with comma / apostrophe / \"*\", patterns * and ?, short and long regexps). "+
+		"For every value position 3-8 (structures in the quick tier: 2) substitutions by another value of the same kind (ints incl. MaxInt64, decimals, strings with comma / apostrophe / \"*\", patterns * and ?, short and long regexps). "+
 		"Equivalence decided on the product of per-field probes hitting every region cut out by the constants of the query, of both SQL texts and of the parameters (at most %d rows per query; %d row evaluations in total).",
 		nLeafPart, map[bool]int{false: 3, true: 4}[thorough], reBodies, len(vc04NumVals(thorough)), len(vc04StrVals(thorough)),
 		nStructPart, len(sl), nRandPart, randDepth, maxRows, rowEvals)
